@@ -83,7 +83,7 @@ def run(ctx, exe, tier, seed, draws=None):
     keys = [_key(c) for c in doc["cases"]]
     total = len(keys)
     if draws is None:
-        draws = 12 if tier == "quick" else 600
+        draws = 12 if tier == "quick" else 4000
     issues = []
     stats = {"cases": total, "draws": draws, "crashes": 0}
 
